@@ -834,6 +834,23 @@ where
             q
         });
         let Some(q) = q else { continue };
+        // positional neighbour query: slot i = the cell across the facet opposite vertex i (None on the boundary);
+        // D+1 empty slots for a missing key
+        if let Some(pos) = call(&mut rep, "Tds::find_neighbors_by_key", || tds.find_neighbors_by_key(ckey).iter().map(|x| x.map(ck_u64)).collect::<Vec<Option<u64>>>()) {
+            out.count("fn/find_neighbors_by_key");
+            let want: Vec<Option<u64>> = match (live, m.cell(ckey)) {
+                (true, Some(c)) => (0..c.v.len())
+                    .map(|i| {
+                        let facet: Vec<VertexKey> = c.v.iter().enumerate().filter(|(j, _)| *j != i).map(|(_, k)| *k).collect();
+                        m.cells.iter().find(|o2| o2.key != c.key && facet.iter().all(|k| o2.v.contains(k))).map(|o2| ck_u64(o2.key))
+                    })
+                    .collect(),
+                _ => vec![None; D + 1],
+            };
+            if pos != want {
+                rep.bad("Tds::find_neighbors_by_key", "slots-differ", &ks, format!("find_neighbors_by_key({}) = {:x?}, enumeration of the facets of the stored cells gives {:x?} (slot i = cell across the facet opposite vertex i)", ks, pos, want), want.iter().map(|x| format!("{:x?}", x)).collect(), pos.iter().map(|x| format!("{:x?}", x)).collect());
+            }
+        }
         let u = ck_u64(ckey);
         let w_nb = if live { o.nbrs.get(&u).unwrap_or(&empty_c) } else { &empty_c };
         let miss = !live;
@@ -1045,6 +1062,15 @@ where
             if !st.l1.is_empty() || !st.l2.is_empty() || !st.fails(Guarantee::PLManifoldStrict, true, n).is_empty() {
                 out.count("not_judged/invalid_state");
                 out.count(&format!("not_judged/invalid_state/{}", origin));
+                return true;
+            }
+            // a Euclidean triangulation covers the convex hull of its vertices: after the library's hull-vertex
+            // removal (recorded under C06, F12c) the boundary can be non-convex with Levels 1-3 intact, and
+            // insertions outside such a region then produce overlapping cells; those states are not valid
+            // triangulations and are counted and skipped like the pinched ones
+            if !refcheck::check_convex_boundary(m).fails.is_empty() {
+                out.count("not_judged/invalid_state");
+                out.count(&format!("not_judged/nonconvex_boundary/{}", origin));
                 return true;
             }
             out.add("note/ambiguous_orientation_cells_in_judged_states", st.l3.orientation_ambiguous as u64);
